@@ -56,7 +56,7 @@ TIERS = {
     "thorough": {"cases": 32000, "batch": 100, "case_timeout": 120},
 }
 MIN_EVALS = {
-    "quick": {"eval": 40000, "eval_bool": 40000, "sub_value": 15000, "cond_handler": 4000, "fresh": 1500,
+    "quick": {"eval": 40000, "eval_bool": 40000, "sub_value": 15000, "cond_handler": 4000, "cond_chain": 1000, "fresh": 1500,
               "player_e2e": 8000},
     "thorough": {"eval": 2000000, "eval_bool": 2000000, "sub_value": 800000, "cond_handler": 200000, "fresh": 90000,
                  "player_e2e": 400000},
@@ -826,6 +826,53 @@ def _run_eval(case):
                                                 "handler_ran": bool(calls), "expected": expect}})
             if n % 20 == 19:
                 vm.advance(0)
+
+        # ---- several handlers guarded by the SAME conditional event string, where an earlier handler changes what
+        # the condition reads: each later handler must be dispatched on the value current at its own turn
+        import random as _random
+        import types as _types
+        rr = _random.Random(repr(case.get("exprs", [])[:3]) + repr(case.get("envs", [])[:1]))
+        chain_conds = ["machine.c16_tok>0", "machine.c16_tok>=2", "machine.c16_tok==1", "machine.c16_tok!=0 and x>0",
+                       "not machine.c16_tok", "machine.c16_tok<limit", "machine.c16_tok>0 or x>0"]
+        clauses["cond_chain"] = 0
+        for _round in range(8):
+            cond = rr.choice(chain_conds)
+            init = rr.choice([0, 1, 1, 2, 3])
+            k = rr.choice([2, 3, 4])
+            muts = [rr.choice([-1, -1, -2, 1, 0, "zero"]) for _ in range(k)]
+            cenv = {"x": rr.choice([0, 1]), "limit": rr.choice([1, 2, 3])}
+            same_string = rr.random() < 0.7
+            m.variables.set_machine_var("c16_tok", init)
+            vm.advance(0.01)
+            ccalls = []
+            keys = []
+
+            def mk(i):
+                def h(**kwargs):
+                    ccalls.append(i)
+                    v = m.variables.get_machine_var("c16_tok")
+                    m.variables.set_machine_var("c16_tok", 0 if muts[i] == "zero" else v + muts[i])
+                return h
+            for i in range(k):
+                cs = cond if same_string or i % 2 == 0 else "(%s)" % cond
+                keys.append(m.events.add_handler("c16_chain{%s}" % cs, mk(i), priority=100 - i))
+            m.events.post("c16_chain", **cenv)
+            vm.advance(0.01)
+            for key in keys:
+                m.events.remove_handler_by_key(key)
+            val = init
+            exp = []
+            for i in range(k):
+                ns = dict(cenv)
+                ns["machine"] = _types.SimpleNamespace(c16_tok=val)
+                if eval(cond, {"__builtins__": {}}, ns):     # noqa: generated condition
+                    exp.append(i)
+                    val = 0 if muts[i] == "zero" else val + muts[i]
+            clauses["cond_chain"] += 1
+            if ccalls != exp:
+                viol.append({"clause": "cond_chain", "sig": "C16:conditional_handler_dispatched_on_stale_condition",
+                             "detail": {"cond": cond, "init": init, "mutations": muts, "env": cenv,
+                                        "handlers_called": ccalls, "expected": exp, "same_string": same_string}})
 
     types = "".join(type(case["envs"][0][p]).__name__[0] for p in sorted(case["envs"][0])) if case.get("envs") else ""
     shape = "E:" + ",".join(sorted(feats_all)) + "|" + types
